@@ -227,7 +227,7 @@ var checks = map[string]*Check{}
 func Register(c *Check) { checks[c.Prop] = c }
 
 const (
-	watchdogCase = 20 * time.Second
+	watchdogCase = 60 * time.Second
 	memCap       = 6 << 30
 )
 
@@ -417,12 +417,68 @@ func runParent(ck *Check, tier string, seed int64, nproc int, budget time.Durati
 	}
 	wg.Wait()
 
-	// merge
-	merged := map[string]*SubStat{}
+	var merged map[string]*SubStat
 	var order []string
 	var viol []Violation
 	internal := ""
 	for _, o := range outs {
+		if o.Fatal != "" && strings.HasPrefix(o.Fatal, "INTERNAL") {
+			internal = o.Fatal
+		}
+	}
+	if internal != "" {
+		fmt.Fprintln(os.Stderr, "internal error:", internal)
+		return 2
+	}
+	// fatal events (hang / crash / memory) end a worker early: they must reproduce before they are believed,
+	// and either way the rest of that worker's shard has to be accounted for.
+	var confirmed []Violation
+	lostShards := 0
+	for k, o := range outs {
+		if o.Fatal == "" {
+			continue
+		}
+		var fv *Violation
+		for i := range o.Viol {
+			if strings.HasPrefix(o.Viol[i].Key, "fatal/") {
+				fv = &o.Viol[i]
+			}
+		}
+		reproduced := fv != nil
+		for i := 0; i < 2 && reproduced; i++ {
+			cmd := exec.Command(self, "-prop", ck.Prop, "-tier", tier, "-replay", fmt.Sprintf("%s:%d", fv.Sub, fv.CaseNo))
+			cmd.Env = os.Environ()
+			if cmd.Run() == nil {
+				reproduced = false
+			}
+		}
+		if reproduced {
+			confirmed = append(confirmed, *fv)
+			lostShards++ // the cases of this shard behind the fatal one were not run
+			continue
+		}
+		fmt.Fprintf(os.Stderr, "note: worker %d ended with a fatal event that did not reproduce (%s); re-running its shard\n", k, o.Fatal)
+		ok := false
+		for attempt := 0; attempt < 2 && !ok; attempt++ {
+			o2 := spawnWorker(self, ck.Prop, tier, k, nproc, tmpd, budget, only, false)
+			if o2.Fatal == "" {
+				outs[k] = o2
+				ok = true
+			}
+		}
+		if !ok {
+			fmt.Fprintf(os.Stderr, "internal error: worker %d keeps dying without a reproducible case: %s\n", k, o.Fatal)
+			return 2
+		}
+	}
+	// merge (after shards have been re-run)
+	merged = map[string]*SubStat{}
+	order = nil
+	viol = nil
+	for _, o := range outs {
+		if o.Fatal != "" {
+			continue
+		}
 		for _, s := range o.Subs {
 			m := merged[s.Name]
 			if m == nil {
@@ -450,35 +506,17 @@ func runParent(ck *Check, tier string, seed int64, nproc int, budget time.Durati
 			}
 		}
 		viol = append(viol, o.Viol...)
-		if o.Fatal != "" && strings.HasPrefix(o.Fatal, "INTERNAL") {
-			internal = o.Fatal
+	}
+	viol = append(viol, confirmed...)
+	if lostShards > 0 {
+		for _, m := range merged {
+			m.Exhaustive = false
 		}
 	}
-	if internal != "" {
-		fmt.Fprintln(os.Stderr, "internal error:", internal)
+	if len(merged) == 0 && lostShards == 0 {
+		fmt.Fprintln(os.Stderr, "internal error: no space was run")
 		return 2
 	}
-	// fatal violations (hang / crash / memory) must reproduce before they are believed
-	var confirmed []Violation
-	for _, v := range viol {
-		if strings.HasPrefix(v.Key, "fatal/") {
-			ok := true
-			for i := 0; i < 2 && ok; i++ {
-				cmd := exec.Command(self, "-prop", ck.Prop, "-tier", tier, "-replay", fmt.Sprintf("%s:%d", v.Sub, v.CaseNo))
-				cmd.Env = os.Environ()
-				err := cmd.Run()
-				if err == nil {
-					ok = false
-				}
-			}
-			if !ok {
-				fmt.Fprintf(os.Stderr, "note: fatal event did not reproduce, not reported: %s\n", v.Detail)
-				continue
-			}
-		}
-		confirmed = append(confirmed, v)
-	}
-	viol = confirmed
 	sort.SliceStable(viol, func(i, j int) bool {
 		if viol[i].Key != viol[j].Key {
 			return viol[i].Key < viol[j].Key
@@ -559,6 +597,7 @@ func runParent(ck *Check, tier string, seed int64, nproc int, budget time.Durati
 			"spaces":                        subs,
 			"worker_processes":              nproc,
 			"known_findings_reported":       nknown,
+			"shards_cut_by_fatal_case":      lostShards,
 		},
 		"assumptions": ck.Assume,
 		"wall_s":      time.Since(t0).Seconds(),
